@@ -16,7 +16,7 @@ def run(run):
         "domain of the order theorems: per sort column all numbers (integers exactly representable as float64), or all datetimes within the UnixNano range, or all text, plus NULLs - as in the property; mixed integers beyond 2^53 with floats are outside (reported under their own signature)",
     ]
     run.obligations_for(["Csvq.Props.C07"])
-    run.stream("c07", 600 if q else 12000)
+    run.stream("c07", 1800 if q else 16000)
     if not q:
         for k in range(1, 4):
             run.stream("c07", 8000, seed_offset=k)
